@@ -222,6 +222,29 @@ Section P.
       intros y [].
   Qed.
 
+  (* the Select of the atomic pipeline is the requested output followed by the columns that some consumed transform asked to have
+     SELECTed (the keys of a Sort / of a take's sort): this is what widens the top operand of a set operation when a Sort stands
+     in front of it (the anchor's half of C07-N12) *)
+  Lemma extend_select sel : forall out, exists extra,
+    fold_left (fun o c => if existsb (Nat.eqb c) o then o else o ++ [c]) sel out = out ++ extra /\ incl extra sel.
+  Proof.
+    induction sel as [|c r IH]; intro out; [exists []; split; [rewrite app_nil_r; reflexivity | apply incl_refl]|].
+    cbn [fold_left]. destruct (existsb (Nat.eqb c) out).
+    - destruct (IH out) as (e & He & Hi). exists e. split; [exact He | apply incl_tl, Hi].
+    - destruct (IH (out ++ [c])) as (e & He & Hi). exists (c :: e). split; [rewrite He, <- app_assoc; reflexivity|].
+      intros x [<-|Hx]; [left; reflexivity | right; apply Hi, Hx].
+  Qed.
+
+  Theorem split_off_back_select_extends pipeline output :
+    exists extra, res_select (split_off_back pipeline output) = output ++ extra /\
+      (extra = [] -> length (res_select (split_off_back pipeline output)) = length output).
+  Proof.
+    unfold SplitOff.split_off_back. set (s0 := mkState _ _ _ _).
+    destruct (walk s0 (rev pipeline)) as [[s rem] why]. cbn [res_select].
+    destruct (extend_select (map r_col (filter r_sel (s_required s))) output) as (e & He & _).
+    exists e. split; [exact He | intros ->; rewrite He, app_nil_r; reflexivity].
+  Qed.
+
   (* the walk stops only when forced *)
   Theorem split_off_back_stop_forced pipeline output w :
     res_why (split_off_back pipeline output) = Some w ->
